@@ -175,6 +175,7 @@ type Result struct {
 	Outputs  []Output      `json:"outputs,omitempty"`
 	Files    []FileEvent   `json:"fileEvents,omitempty"`
 	Steps    *StepStats    `json:"steps,omitempty"`
+	ScanDone bool          `json:"scanDone,omitempty"`
 	Scan     []*Node       `json:"scanTree,omitempty"`
 	Expand   []*Node       `json:"expandTree,omitempty"`
 	Lexemes  []Lexeme      `json:"lexemes,omitempty"`
